@@ -4,6 +4,7 @@ import (
 	"fmt"
 	"math/rand"
 	"strings"
+	"time"
 
 	eval "github.com/onheap/eval"
 )
@@ -37,8 +38,8 @@ func zeroKeys(t *GT) {
 
 func init() {
 	register(&PropDef{
-		ID:   "C20",
-		Rule: "GenerateRandomExpr at levels 0..40 under a scripted rand.Source (rand.Intn(n) = draw mod n, checked at start-up against math/rand), every combination of EnableVariable/EnableCondition/EnableTryEval, both result types, variable lists passed in fixed order: Go's expression (parsed) and reported result are compared with the model `generate` on the same draws; in addition Go's expression is compiled and evaluated by Go (Eval without DNE variables, TryEval with them) and must return the reported result without error; non-trivial = level >= 1; distinct = distinct (options, level, draws)",
+		ID:          "C20",
+		Rule:        "GenerateRandomExpr at levels 0..40 under a scripted rand.Source (rand.Intn(n) = draw mod n, checked at start-up against math/rand), every combination of EnableVariable/EnableCondition/EnableTryEval, both result types, variable lists passed in fixed order: Go's expression (parsed) and reported result are compared with the model `generate` on the same draws; in addition Go's expression is compiled and evaluated by Go (Eval without DNE variables, TryEval with them) and must return the reported result without error; non-trivial = level >= 1; distinct = distinct (options, level, draws)",
 		Assumptions: []string{"math/rand.Intn on a Source returning v<<32 with v < 2^20 yields v mod n (verified by a sweep in every run)"},
 		Behav:       []int{22}, Fidelity: []int{21}, CodeText: map[int]string{21: "generated expression differs from the model's on the same draws", 22: "reported result differs from the model's"},
 		Gen: func(c *RunCtx) []*Batch {
@@ -90,6 +91,43 @@ func init() {
 				opts := []eval.GenExprOption{func(cf *eval.GenExprConfig) {
 					cf.NumVariables, cf.BoolVariables, cf.DneVariables = nums, bools, dnes
 				}}
+				if k%4 == 3 {
+					// the public GenVariables option: at most one variable of each kind (so that Go's map order cannot
+					// matter), numbers supplied in the dynamic types Eval accepts (int, int8, int32, uint8, uint32, Duration)
+					nums, bools, dnes = nums[:minInt(1, len(nums))], bools[:minInt(1, len(bools))], dnes[:minInt(1, len(dnes))]
+					gm := map[string]interface{}{}
+					vals = map[string]interface{}{}
+					for _, x := range nums {
+						z := x.Res.(int64)
+						var raw interface{} = z
+						switch r.Intn(7) {
+						case 0:
+							raw = int(z)
+						case 1:
+							raw = int8(z)
+						case 2:
+							raw = int32(z)
+						case 3:
+							if z >= 0 {
+								raw = uint8(z)
+							}
+						case 4:
+							if z >= 0 {
+								raw = uint32(z)
+							}
+						case 5:
+							raw = time.Duration(z) * time.Second
+						}
+						gm[x.Expr], vals[x.Expr] = raw, raw
+					}
+					for _, x := range bools {
+						gm[x.Expr], vals[x.Expr] = x.Res, x.Res
+					}
+					for _, x := range dnes {
+						gm[x.Expr] = eval.DNE
+					}
+					opts = []eval.GenExprOption{eval.GenVariables(gm)}
+				}
 				if enVar {
 					opts = append(opts, eval.EnableVariable)
 				}
